@@ -1529,6 +1529,14 @@ impl NB {
             NB::Combined(bs) => bs.iter().all(|b| b.sound()),
         }
     }
+    /// every cost of every row is a finite number
+    fn finite(&self) -> bool {
+        match self {
+            NB::Edge { rows, .. } => rows.iter().flatten().all(|r| r.1.is_finite()),
+            NB::Pair { rows, .. } => rows.iter().flatten().all(|r| r.1.is_finite()),
+            NB::Combined(bs) => bs.iter().all(|b| b.finite()),
+        }
+    }
     /// the per-edge / per-turn surcharge the files prescribe (the last row of a key counts)
     fn edge_value(&self, e: usize) -> f64 {
         match self {
@@ -1589,8 +1597,11 @@ fn ncb_case(ctx: &mut Ctx, idx: usize, rng: &mut Rng, dir: &str) {
         Err(_) => ctx.fail(idx, "network_cost_rate_builder/panic", "build panicked".into()),
         Ok(Err(_)) => {
             ctx.count("ncb_build_error");
-            if b.sound() {
+            if b.sound() && b.finite() {
                 ctx.fail(idx, "network_cost_rate_builder/rejects-valid", "every file is readable and every row decodable but build failed".into());
+            }
+            if b.sound() && !b.finite() {
+                ctx.count("ncb_nonfinite_cost_rejected");
             }
         }
         Ok(Ok(vals)) => {
@@ -1605,11 +1616,8 @@ fn ncb_case(ctx: &mut Ctx, idx: usize, rng: &mut Rng, dir: &str) {
                     ctx.fail(idx, "network_cost_rate_builder/lookup", format!("edge {} costs {} (files say {}), turn ({},{}) costs {} (files say {})", e, t, b.edge_value(*e), pe, ne, a, b.pair_value(*pe, *ne)));
                 }
             }
-            if nonfinite {
-                ctx.count("ncb_nonfinite_cost_in_file");
-                if vals.iter().any(|(t, a)| !t.is_finite() || !a.is_finite()) {
-                    ctx.fail(idx, "network_cost_rate_builder/non-finite-cost-accepted", "a lookup file with a NaN / infinite cost was loaded: the surcharge of that edge is not finite".into());
-                }
+            if nonfinite && !b.finite() {
+                ctx.fail(idx, "network_cost_rate_builder/non-finite-cost-accepted", "a lookup file with a NaN / infinite cost was loaded: the surcharge of that edge or turn is not finite".into());
             }
         }
     }
